@@ -50,6 +50,7 @@ class Obl:
         self.finding_key = finding_key
         self.functions = list(functions)
         self.batch = None         # (key, max group size) or None
+        self.native_args = None
         # results
         self.verdict = None
         self.detail = ''
@@ -205,8 +206,30 @@ def _classify_twin(msgs):
     return INCONCLUSIVE
 
 
+def run_native(ob):
+    """An enumeration obligation: the function runs natively over a finite
+    table (no symbolic inputs, so no solver is involved)."""
+    t0 = time.time()
+    r = replay(ob.module, ob.func, ob.native_args or '')
+    if 'error' in r:
+        ob.verdict, ob.detail = HARNESS_ERROR, 'native run failed: %r' % r
+    elif r.get('raised'):
+        ob.verdict, ob.detail = HARNESS_ERROR, 'raised ' + r['raised']
+    elif r.get('ok'):
+        ob.verdict, ob.detail = DISCHARGED, ''
+        ob.twin_verdict = REFUTED
+    else:
+        ob.cex = ob.native_args or ''
+        ob.verdict = VIOLATION
+        ob.detail = 'enumeration returned %s' % r.get('returned')
+    ob.time_s = time.time() - t0
+    return ob
+
+
 def run_obligation(ob):
     t0 = time.time()
+    if ob.kind == 'native':
+        return run_native(ob)
     if ob.kind != 'crosshair':
         raise ValueError(ob.kind)
     funcs = [ob.func] + ([ob.twin] if ob.twin else [])
@@ -230,8 +253,8 @@ def run_obligation(ob):
 def run_batch(obs):
     """Several obligations of the same module in one CrossHair process
     (saves the ~6 s start-up per obligation)."""
-    if len(obs) == 1:
-        return [run_obligation(obs[0])]
+    if len(obs) == 1 or any(o.kind != 'crosshair' for o in obs):
+        return [run_obligation(o) for o in obs]
     t0 = time.time()
     funcs = []
     for ob in obs:
